@@ -160,7 +160,7 @@ func (c *FnCtx) sortOfKey(key string) string {
 	switch {
 	case key == "alloc":
 		s = "(Array Int Bool)"
-	case strings.HasPrefix(key, "f:"), strings.HasPrefix(key, "c:"):
+	case strings.HasPrefix(key, "f:"), strings.HasPrefix(key, "c:"), strings.HasPrefix(key, "gh:"):
 		t, ok := keyTypes[key]
 		if !ok {
 			c.errorf("heap key %s has no recorded type", key)
@@ -181,7 +181,7 @@ func (c *FnCtx) sortOfKey(key string) string {
 				s = fmt.Sprintf("(Array Int (Array %s Bool))", c.ss.SortOf(m.Key()))
 			}
 		}
-	case strings.HasPrefix(key, "g:"):
+	case strings.HasPrefix(key, "g:"), strings.HasPrefix(key, "gg:"):
 		t, ok := keyTypes[key]
 		if !ok {
 			c.errorf("global %s has no recorded type", key)
